@@ -50,6 +50,7 @@ type Case struct {
 	RawType        string   `json:"raw_type"`        // HttpBody content type (routes raw / rb-body)
 	RawData        []byte   `json:"raw_data"`
 	HeaderMode     string   `json:"header_mode"` // "", "set" (grpc.SetHeader) or "send" (grpc.SendHeader) before the reply is returned
+	Later          int      `json:"later"`       // further registrations on the same mux after the service under test (0-2)
 	ReqGzip        bool     `json:"req_gzip"`    // POST: the request body itself travels gzip-compressed (Content-Encoding: gzip)
 }
 
@@ -75,6 +76,9 @@ func theWorld() *dyn.World {
 			dyn.MethodSpec{Name: "RbLeaf", In: ".un.All", Out: ".un.All", Rule: rb("/c4/rb-leaf", "nest.leaf")},
 			dyn.MethodSpec{Name: "RbBody", In: ".un.All", Out: ".un.All", Rule: rb("/c4/rb-body", "http_body")},
 			dyn.MethodSpec{Name: "Raw", In: ".un.All", Out: ".google.api.HttpBody", Rule: get("/c4/raw")},
+		), dyn.Svc("C4Later",
+			// registered AFTER C4 in some cases: a later registration must not disturb the earlier bindings
+			dyn.MethodSpec{Name: "Other", In: ".un.All", Out: ".un.All", Rule: get("/c4later/other")},
 		))
 	})
 	return world
@@ -130,6 +134,15 @@ func Check(c Case) ([]evid.Violation, info) {
 	}
 	if err := mux.VerifRegisterService(sd, nil); err != nil {
 		return []evid.Violation{evid.V("register", "", "registration failed: %v", err)}, info{}
+	}
+	for i := 0; i < c.Later; i++ {
+		// every registration works on a copy of the routing state: the copy must carry everything
+		later := w.ServiceDesc("un.C4Later", func(ctx context.Context, fm string, req *dynamicpb.Message) (proto.Message, error) {
+			return req, nil
+		}, nil)
+		if err := mux.VerifRegisterService(later, nil); err != nil {
+			return []evid.Violation{evid.V("register", "", "later registration failed: %v", err)}, info{}
+		}
 	}
 	hdr := http.Header{}
 	if c.Accept != nil {
@@ -302,6 +315,7 @@ func genCase(t *rapid.T) Case {
 		c.Verb = "GET"
 	}
 	c.HeaderMode = rapid.SampledFrom([]string{"", "", "set", "send"}).Draw(t, "headerMode")
+	c.Later = rapid.SampledFrom([]int{0, 0, 1, 2}).Draw(t, "later")
 	c.ReqGzip = c.Verb == "POST" && rapid.IntRange(0, 3).Draw(t, "reqGzip") == 0
 	nl := rapid.SampledFrom([]int{0, 1, 1, 1, 2, 3}).Draw(t, "nAcceptLines")
 	for i := 0; i < nl; i++ {
@@ -352,6 +366,9 @@ func TestProp(t *testing.T) {
 		}
 		if c.ReqGzip {
 			cl = append(cl, "request-body-gzip")
+		}
+		if c.Later > 0 {
+			cl = append(cl, "later-registration-on-the-mux")
 		}
 		nonEmpty := len(c.Reply) > 0 || len(c.RawData) > 0
 		key := ""
